@@ -236,6 +236,48 @@ def evaluate(ctx, cases):
         want = [core.canon(x) for x in expect]
         if got != want:
             ctx.violation("projection must contain exactly the selected values at their (rank-compacted) locations, one projection per container match with a non-empty selection", inp, got, want)
+        _history(ctx, c, doc, o, got, inp)
+
+
+def _history(ctx, c, doc, o, got, inp):
+    import jsonpath
+    from jsonpath import Projection
+    # the projection is of the document as it is now, and belongs to the caller: project, edit what came back, edit the
+    # document in place, project again from the same document object
+    if isinstance(doc, (dict, list)) and o["ok"] and ctx.rng.random() < (0.5 if ctx.tier == "quick" else 1.0):
+        ctx.count("history")
+        style_h = getattr(Projection, c["style"])
+        for proj in (o["ok"] if c["style"] != "FLAT" else []):      # a flat projection lists the selected values themselves
+            for _, v in list(G.locations(proj)):
+                if isinstance(v, list):
+                    v.append("EDITED-BY-CALLER")
+                elif isinstance(v, dict):
+                    v["EDITED-BY-CALLER"] = 1
+        again = core.outcome(lambda: [core.canon(x) for x in jsonpath.query(c["match"], doc).select(*c["sel"], projection=style_h)])
+        if again.get("ok") != got:
+            ctx.violation("a projection must not depend on what the caller did with an earlier projection of the same document", inp, again.get("ok", again.get("err")), got)
+        def bump(x):
+            if isinstance(x, dict):
+                for k in list(x):
+                    x[k] = bump(x[k])
+                return x
+            if isinstance(x, list):
+                for i in range(len(x)):
+                    x[i] = bump(x[i])
+                return x
+            if isinstance(x, bool) or x is None:
+                return x
+            if isinstance(x, (int, float)):
+                return x + 1000
+            if isinstance(x, str):
+                return x + "!"
+            return x
+        bump(doc)                                                # same containers, new leaves
+        live = core.outcome(lambda: [core.canon(x) for x in jsonpath.query(c["match"], doc).select(*c["sel"], projection=style_h)])
+        fresh = core.outcome(lambda: [core.canon(x) for x in jsonpath.query(c["match"], copy.deepcopy(doc)).select(*c["sel"], projection=style_h)])
+        if live.get("ok") != fresh.get("ok") or ("err" in live) != ("err" in fresh):
+            ctx.violation("a projection taken again after the document was edited in place must be that of the document as it is now", {**inp, "document_now": core.canon(doc)},
+                          live.get("ok", live.get("err")), fresh.get("ok", fresh.get("err")))
 
 
 def search(ctx):
